@@ -15,6 +15,9 @@ CHECKS = {
  "C06": ("property-based testing (boundary-biased proptest + enumerated limit boundaries) with a counting global allocator as an extra observer",
          "Exact-limit model (accepted iff declared length <= L) checked on tonic's Streaming with declared-but-absent payloads and a Pending body, allocation requests observed by a counting allocator; EncodeBody with an oversized message at every position after batched/flushed earlier messages (prefix-preservation oracle via the independent frame parser), the 2^32+1-byte case, and limit plumbing through generated client and server at L-1, L, L+1.",
          "Counting allocator sees only allocations made on the polling thread; 4 GiB case relies on lazily committed pages; limits apply to wire payload length.", "4/C06"),
+ "C12": ("property-based testing (proptest; reference model = interceptor operations applied to an ordered header multimap and an extension model) plus an enumerated method x version x URI table",
+         "Random requests (7 methods, 5 HTTP versions, origin/absolute/authority URIs, repeated/reserved/-bin/opaque headers, typed extensions, non-Clone body) through InterceptedService in its three forms with scripted interceptor operations or a rejecting status; the recording inner service and the returned response are compared with the model; rejects are read back with independent percent/base64 decoders.",
+         "Order across different header names is not compared; number of extensions not compared.", "4/C12"),
 }
 NOT_YET = {}
 def main():
